@@ -35,6 +35,11 @@ class BudgetExceeded(BaseException):
     fparser can swallow it)."""
 
 
+class HangDetected(BaseException):
+    """Raised by the wall-clock guard of guarded_parse (a parse of a small input that runs for a minute
+    without constructing rules is not 'a generous time bound')."""
+
+
 class _Counter:
     count = 0
     limit = None
@@ -114,11 +119,19 @@ def _innermost_fparser_frame(tb):
 
 
 def guarded_parse(src, std="f2003", ignore_comments=True, want_str=False, budget=None,
-                  file_path=None, **kw):
+                  file_path=None, hang_limit=90, **kw):
     """Parse, classifying the outcome.  Never raises (except harness bugs)."""
     if budget is not None:
         install_counter()
         reset_counter(budget)
+    import signal
+    import threading
+    use_alarm = hang_limit and threading.current_thread() is threading.main_thread()
+    if use_alarm:
+        def _on_alarm(signum, frame):
+            raise HangDetected()
+        old_handler = signal.signal(signal.SIGALRM, _on_alarm)
+        signal.setitimer(signal.ITIMER_REAL, hang_limit)
     try:
         tree = parse(src, std=std, ignore_comments=ignore_comments, file_path=file_path, **kw)
         text = None
@@ -129,6 +142,9 @@ def guarded_parse(src, std="f2003", ignore_comments=True, want_str=False, budget
         return Outcome("syntax", exc=e, text=str(e))
     except BudgetExceeded as e:
         return Outcome("budget", exc=e, text="budget exceeded")
+    except HangDetected as e:
+        where, _ = _innermost_fparser_frame(e.__traceback__)
+        return Outcome("hang", exc=e, text="no result after %ss" % hang_limit, where=where)
     except SystemExit as e:
         where, chain = _innermost_fparser_frame(e.__traceback__)
         # identify the call site of reader.error() (the frame just above it), else the innermost frame
@@ -144,5 +160,8 @@ def guarded_parse(src, std="f2003", ignore_comments=True, want_str=False, budget
         return Outcome("other", exc=e, text="%s: %s" % (type(e).__name__, str(e)[:200]),
                        where=where)
     finally:
+        if use_alarm:
+            signal.setitimer(signal.ITIMER_REAL, 0)
+            signal.signal(signal.SIGALRM, old_handler)
         if budget is not None:
             _Counter.limit = None
